@@ -143,3 +143,46 @@ pub fn sign(x: i128) -> &'static str {
         "zero"
     }
 }
+
+/// The 15-minute (or any interval) time-weighted average of what closing `size` would exchange, computed from the
+/// harness's own per-block record of the vAMM's reserves (one record per block with a trade, holding the block's final
+/// reserves, plus the reserves at deployment). Each record counts from its block time to the next record's; the average
+/// is over the interval, or over the whole history when that is shorter. None: arithmetic out of range.
+pub fn twap_output_ref(recs: &[crate::run::PriceRec], dir: Dir, size: U, interval: u64, now: u64, d: U) -> Option<U> {
+    let n = recs.len();
+    if n == 0 {
+        return None;
+    }
+    let price = |i: usize| curve_output(dir, size, recs[i].q, recs[i].b, d);
+    let cur = n - 1;
+    if interval == 0 {
+        return price(cur);
+    }
+    let base = now.checked_sub(interval)?;
+    if n == 1 || recs[cur].time <= base {
+        return price(cur);
+    }
+    let mut prev_t = recs[cur].time;
+    let mut period = (now.checked_sub(prev_t)?) as u128;
+    let mut weighted = price(cur)?.checked_mul(period)?;
+    let mut i = cur;
+    loop {
+        if i == 0 {
+            if period == 0 {
+                return None;
+            }
+            return Some(weighted / period);
+        }
+        i -= 1;
+        let p = price(i)?;
+        if recs[i].time <= base {
+            weighted = weighted.checked_add(p.checked_mul((prev_t - base) as u128)?)?;
+            break;
+        }
+        let dt = (prev_t - recs[i].time) as u128;
+        weighted = weighted.checked_add(p.checked_mul(dt)?)?;
+        period += dt;
+        prev_t = recs[i].time;
+    }
+    Some(weighted / interval as u128)
+}
